@@ -15,7 +15,7 @@ structure FDecl where
   typ : Nat
   role : Nat
   descr : Nat
-  ops : Nat → Option (Bool × Bool)     -- function ↦ (read, write) as first added
+  ops : Nat → Option (Bool × Bool × Bool)   -- function ↦ (read, write, partial write) as first added
 
 structure Spec where
   att : Nat → Bool                      -- the entity (slot) is part of the device
@@ -23,11 +23,11 @@ structure Spec where
   feat : Nat → Nat → Option FDecl       -- slot, feature number ↦ declaration
 
 /-- AddFunctionType as declared: server and special features only, the first addition of a function counts -/
-def declFn (d : FDecl) (fn : Nat) (r w : Bool) : FDecl :=
+def declFn (d : FDecl) (fn : Nat) (r w cap : Bool) : FDecl :=
   if d.role = 0 then d
   else match d.ops fn with
     | some _ => d
-    | none => { d with ops := fun g => if g = fn then some (r, w) else d.ops g }
+    | none => { d with ops := fun g => if g = fn then some (r, w, w && cap) else d.ops g }
 
 def setFeat (σ : Spec) (k id : Nat) (v : Option FDecl) : Spec :=
   { σ with feat := fun j i => if j = k ∧ i = id then v else σ.feat j i }
@@ -47,13 +47,14 @@ def specStep (σ : Spec) (o : Op) (ret : Option Nat) : Spec :=
       match σ.feat k id with
       | some _ => σ
       | none => setFeat σ k id (some ⟨typ, role, descrOf typ role, fun _ => none⟩)
-  | .addFn k fid fn r w => setFeat σ k fid ((σ.feat k fid).map fun d => declFn d fn r w)
+  | .addFn k fid fn r w cap => setFeat σ k fid ((σ.feat k fid).map fun d => declFn d fn r w cap)
   | .setDescr k fid d => setFeat σ k fid ((σ.feat k fid).map fun x => { x with descr := d })
   | _ => σ
 
 /-! ### the abstraction of a model state -/
 
-def fnOps (fns : List Fn) (fn : Nat) : Option (Bool × Bool) := (fns.find? (·.fn = fn)).map fun x => (x.read, x.write)
+def fnOps (fns : List Fn) (fn : Nat) : Option (Bool × Bool × Bool) :=
+  (fns.find? (·.fn = fn)).map fun x => (x.read, x.write, x.wpart)
 
 def toDecl (f : Feat) : FDecl := ⟨f.typ, f.role, f.descr, fnOps f.fns⟩
 
@@ -74,7 +75,7 @@ def specFrom : St → Spec → List Op → Spec
   | s, σ, o :: os => specFrom (step s o).1 (specStep σ o (retOf (step s o).2)) os
 
 /-- the SPEC of a history from the initial device (entity [0] with node management and device classification) -/
-def specOf (ops : List Op) : Spec := specFrom init (abs init) ops
+def specOf (cfg : DevCfg) (ops : List Op) : Spec := specFrom (init cfg) (abs (init cfg)) ops
 
 /-! ### lemmas -/
 
@@ -108,29 +109,29 @@ theorem find_updFeat (fs : List Feat) (fid : Nat) (g : Feat → Feat) (hg : ∀ 
 theorem fnOps_append_single (fns : List Fn) (x : Fn) (g : Nat) :
     fnOps (fns ++ [x]) g = match fnOps fns g with
       | some v => some v
-      | none => if x.fn = g then some (x.read, x.write) else none := by
+      | none => if x.fn = g then some (x.read, x.write, x.wpart) else none := by
   simp only [fnOps, List.find?_append]
   cases h : fns.find? (·.fn = g) with
   | some v => simp
   | none =>
     by_cases hx : x.fn = g <;> simp [hx]
 
-theorem toDecl_featAddFn (f : Feat) (fn : Nat) (r w : Bool) :
-    toDecl (featAddFn f fn r w) = declFn (toDecl f) fn r w := by
+theorem toDecl_featAddFn (f : Feat) (fn : Nat) (r w cap : Bool) :
+    toDecl (featAddFn f fn r w cap) = declFn (toDecl f) fn r w cap := by
   by_cases hr : f.role = 0
-  · rw [featAddFn_client f fn r w hr]; simp [declFn, toDecl, hr]
+  · rw [featAddFn_client f fn r w cap hr]; simp [declFn, toDecl, hr]
   · by_cases hm : fn ∈ f.fns.map (·.fn)
-    · rw [featAddFn_again f fn r w hm]
+    · rw [featAddFn_again f fn r w cap hm]
       obtain ⟨x, hx, hxf⟩ := List.mem_map.mp hm
       have : ∃ v, fnOps f.fns fn = some v := by
         cases hfind : f.fns.find? (·.fn = fn) with
-        | some y => exact ⟨(y.read, y.write), by simp [fnOps, hfind]⟩
+        | some y => exact ⟨(y.read, y.write, y.wpart), by simp [fnOps, hfind]⟩
         | none =>
           have := List.find?_eq_none.mp hfind x hx
           simp [hxf] at this
       obtain ⟨v, hv⟩ := this
       simp [declFn, toDecl, hr, hv]
-    · rw [featAddFn_new f fn r w hr hm]
+    · rw [featAddFn_new f fn r w cap hr hm]
       have hnone : fnOps f.fns fn = none := by
         simp only [fnOps, Option.map_eq_none_iff]
         rw [List.find?_eq_none]
@@ -231,7 +232,7 @@ theorem abs_step (s : St) (h : Inv s) (o : Op) :
       by_cases hj : j = k
       · subst hj; simp [featAt]
       · simp [hj]
-  | addFn k fid fn r w =>
+  | addFn k fid fn r w cap =>
     refine spec_ext rfl ?_ ?_
     · funext j
       simp only [step, abs, specStep, setFeat]
@@ -243,7 +244,7 @@ theorem abs_step (s : St) (h : Inv s) (o : Op) :
       by_cases hj : j = k
       · subst hj
         simp only [true_and, if_true, featAt]
-        rw [find_updFeat _ _ _ (fun f => featAddFn_id f fn r w)]
+        rw [find_updFeat _ _ _ (fun f => featAddFn_id f fn r w cap)]
         by_cases hi : i = fid
         · subst hi
           simp only [if_true, Option.map_map]
@@ -277,6 +278,7 @@ theorem abs_step (s : St) (h : Inv s) (o : Op) :
   | unsub p => rfl
   | addUc k => rfl
   | read p => rfl
+  | destRead p known => rfl
 
 theorem abs_fold (ops : List Op) : ∀ s : St, Inv s →
     abs (ops.foldl (fun s o => (step s o).1) s) = specFrom s (abs s) ops := by
@@ -288,7 +290,8 @@ theorem abs_fold (ops : List Op) : ∀ s : St, Inv s →
     rw [ih _ (inv_step s h o), abs_step s h o]
 
 /-- the model state after any history abstracts to the SPEC of that history -/
-theorem abs_run (ops : List Op) : abs (run ops) = specOf ops := abs_fold ops init inv_init
+theorem abs_run (cfg : DevCfg) (ops : List Op) : abs (run cfg ops) = specOf cfg ops :=
+  abs_fold ops (init cfg) (inv_init cfg)
 
 /-! ### the reply read as maps from addresses -/
 
@@ -455,12 +458,13 @@ theorem recv_eq_exp (p : Nat) (ops : List Op) : ∀ s : St, Inv s →
     | renew k et => exact filter_discTo_other s p _ (by intro k; simp) (by intro k; simp)
     | feat k typ role => exact filter_discTo_other s p _ (by intro k; simp) (by intro k; simp)
     | nextId k => exact filter_discTo_other s p _ (by intro k; simp) (by intro k; simp)
-    | addFn k fid fn r w => exact filter_discTo_other s p _ (by intro k; simp) (by intro k; simp)
+    | addFn k fid fn r w cap => exact filter_discTo_other s p _ (by intro k; simp) (by intro k; simp)
     | setDescr k fid d => exact filter_discTo_other s p _ (by intro k; simp) (by intro k; simp)
     | sub q => exact filter_discTo_other s p _ (by intro k; simp) (by intro k; simp)
     | unsub q => exact filter_discTo_other s p _ (by intro k; simp) (by intro k; simp)
     | addUc k => exact filter_discTo_other s p _ (by intro k; simp) (by intro k; simp)
     | read q => exact filter_discTo_other s p _ (by intro k; simp) (by intro k; simp)
+    | destRead q known => exact filter_discTo_other s p _ (by intro k; simp) (by intro k; simp)
 
 theorem expNotes_length (p : Nat) (ops : List Op) : ∀ (s : St) (sb : Bool),
     (expNotes p s sb ops).length = expCount p sb ops := by
